@@ -24,6 +24,10 @@ def mapSet (m : List (Option Nat)) (c y : Nat) : List (Option Nat) :=
 
 def mapGet (m : List (Option Nat)) (c : Nat) : Option Nat := (m[c]?).join
 
+/-- the unconditional dict store `m[c] = y` (keys between the old length and `c` stay absent) -/
+def mapPut (m : List (Option Nat)) (c y : Nat) : List (Option Nat) :=
+  if c < m.length then m.set c (some y) else m ++ List.replicate (c - m.length) none ++ [some y]
+
 /-- `SimpleARTMAP.match_reset_func` negated: category `c` is vetoed for class `y`
 iff it is already mapped to a different class. -/
 def mapVeto (m : List (Option Nat)) (y : Nat) (c : Nat) : Bool :=
